@@ -68,6 +68,10 @@ def cmd_check(a):
     sys.path.insert(0, VERIF)
     evdir = os.path.join(VERIF, 'evidence')
     os.makedirs(os.path.join(evdir, 'replays'), exist_ok=True)
+    if not a.only:
+        for fn in os.listdir(os.path.join(evdir, 'replays')):
+            if fn.startswith(prop + '-'):
+                os.remove(os.path.join(evdir, 'replays', fn))
     code = 0
     try:
         h = importlib.import_module(hname)
